@@ -27,6 +27,12 @@ func (s *Store) Put(id packet.ID, future *Future) {
 	s.mutex.Lock()
 	defer s.mutex.Unlock()
 
+	// cancel a future that gets replaced as its id has been reused (e.g.
+	// after a session reset) and it can never be completed anymore
+	if existing, ok := s.store[id]; ok && existing != future {
+		existing.Cancel(nil)
+	}
+
 	// set future
 	s.store[id] = future
 }
